@@ -44,6 +44,7 @@ MaxInt == 32767
 InInt(n) == MinInt <= n /\ n <= MaxInt
 
 MaxMant == 16777216      \* 2^24: integers below it are exact in f32 and f64
+MaxMantD == 1073741824   \* 2^30: Doubles carry more (the bound is TLC's 32-bit arithmetic)
 MaxExp  == 10
 Abs(n)  == IF n < 0 THEN -n ELSE n
 Sgn(n)  == IF n < 0 THEN -1 ELSE IF n = 0 THEN 0 ELSE 1
@@ -58,7 +59,7 @@ NormE(n, e) == IF e > 0 /\ n % 2 = 0 THEN NormE(n \div 2, e - 1) ELSE e
 \* a float of type t with value n / 2^e, or Approx when it leaves the exact domain
 MkF(t, n, e) ==
   LET nn == NormN(n, e)  ee == NormE(n, e)
-  IN  IF Abs(nn) >= MaxMant \/ ee > MaxExp THEN Approx(t) ELSE V(t, nn, ee, <<>>, TRUE)
+  IN  IF Abs(nn) >= (IF t = "D" THEN MaxMantD ELSE MaxMant) \/ ee > MaxExp THEN Approx(t) ELSE V(t, nn, ee, <<>>, TRUE)
 
 \* products are guarded so that TLC's 32-bit integers never overflow
 MulFits(a, b) == a = 0 \/ b = 0 \/ Abs(a) <= 1073741823 \div Abs(b)
